@@ -2245,6 +2245,18 @@ class _Normalizer:
                 return n if n is not fnode else self_.generic_visit(n)
             visit_AsyncFunctionDef = visit_FunctionDef
 
+            def visit_Expr(self_, n):
+                n = self_.generic_visit(n)
+                # six.raise_from(E, cause) / six.reraise(tp, value, tb): a raise statement (they never return)
+                v = n.value
+                if isinstance(v, ast.Call) and not v.keywords and 'six' in me.m.imports and not shadow('six'):
+                    t = ast.unparse(v.func)
+                    if t == 'six.raise_from' and len(v.args) == 2:
+                        return ast.copy_location(ast.Raise(exc=v.args[0], cause=v.args[1]), n)
+                    if t == 'six.reraise' and len(v.args) in (2, 3):
+                        return ast.copy_location(ast.Raise(exc=v.args[1], cause=None), n)
+                return n
+
             def visit_Attribute(self_, n):
                 n = self_.generic_visit(n)
                 # the whence constants of seek() are the integers the package writes (fixed by the io module's documentation)
